@@ -192,6 +192,9 @@ type verifStore struct {
 	armed string // hook: forged reply for the next EVALSHA / EVAL
 	hits  int
 	pings int // PINGs of monitor goroutines that failed during an outage
+	pgate       bool          // hook: hold the reply of every PING that arrives while the store answers
+	pheld       int
+	pgateCh     chan struct{}
 	gate        int           // hook: hold every EVALSHA until this many have arrived
 	arrived     int
 	gateCh      chan struct{}
@@ -227,6 +230,23 @@ func (s *verifStore) hook(c *server.Peer, cmd string, args ...string) bool {
 		select {
 		case <-wait:
 		case <-time.After(2 * time.Second): // a caller never arrived (cut off by the breaker): give up
+		}
+	}
+	if cmd == "PING" && !d {
+		s.mu.Lock()
+		pg, ch := s.pgate, s.pgateCh
+		if pg {
+			s.pheld++
+		}
+		s.mu.Unlock()
+		if pg {
+			// the store has answered this ping (PONG, decided now); the monitor gets the reply later
+			select {
+			case <-ch:
+			case <-time.After(5 * time.Second):
+			}
+			c.WriteInline("PONG")
+			return true
 		}
 	}
 	if a != "" && ev {
@@ -517,6 +537,12 @@ func verifTokenOnce(c verifCase) (out verifOut) {
 	defer func() {
 		// let monitors finish so that no goroutine keeps pinging a dead port
 		verifLog.open()
+		st.mu.Lock()
+		if st.pgate {
+			st.pgate = false
+			close(st.pgateCh)
+		}
+		st.mu.Unlock()
 		if st.down {
 			st.setUp()
 		}
@@ -675,6 +701,65 @@ func verifTokenOnce(c verifCase) (out verifOut) {
 		case "down":
 			st.setDown()
 			out.Obs = append(out.Obs, nil)
+		case "parm": // the reply to every PING that the store answers from now on is held back
+			st.mu.Lock()
+			st.pgate, st.pheld, st.pgateCh = true, 0, make(chan struct{})
+			st.mu.Unlock()
+			out.Obs = append(out.Obs, nil)
+		case "uph": // the store answers again; wait until every running monitor's PING has been answered (and is held)
+			if err := st.setUp(); err != nil {
+				out.Err = err.Error()
+				return
+			}
+			running := make([]bool, len(lims))
+			want := 0
+			for i, l := range lims {
+				running[i] = verifMonitor(l) && !verifAlive(l)
+				if running[i] {
+					want++
+				}
+			}
+			deadline := time.Now().Add(patience)
+			for polls := 0; ; polls++ {
+				st.mu.Lock()
+				h := st.pheld
+				st.mu.Unlock()
+				if h >= want {
+					break
+				}
+				if time.Now().After(deadline) && polls >= 400 {
+					out.Disturbed = true
+					break
+				}
+				time.Sleep(2 * time.Millisecond)
+			}
+			out.Obs = append(out.Obs, map[string][]bool{"held": running})
+		case "prelease": // the held PONGs are delivered: the monitors store redisAlive = 1 and leave
+			st.mu.Lock()
+			if st.pgate {
+				st.pgate = false
+				close(st.pgateCh)
+			}
+			st.mu.Unlock()
+			alive := make([]bool, len(lims))
+			deadline := time.Now().Add(patience)
+			for polls := 0; ; polls++ {
+				done := true
+				for i, l := range lims {
+					alive[i] = verifAlive(l)
+					if verifMonitor(l) {
+						done = false
+					}
+				}
+				if done || (time.Now().After(deadline) && polls >= 400) {
+					break
+				}
+				time.Sleep(2 * time.Millisecond)
+			}
+			for i := range expect {
+				expect[i] = alive[i]
+			}
+			out.Obs = append(out.Obs, map[string][]bool{"alive": alive})
 		case "arm": // from now on the monitor goroutine is parked inside any log call it makes
 			verifLog.arm()
 			out.Obs = append(out.Obs, nil)
